@@ -19,7 +19,7 @@ RULE = ("Hypothesis-generated histories (<=12 ops) over Top.a -> Mid.b -> Leaf(x
         "any Mid (attached or not), the c leaf; leaf / mid assignments (by attribute, param.update or inside a batch on the sub-object) on attached and detached objects; one parent, two parents sharing the pool of sub-objects, or a parent and an instance of a subclass with one more dependent method; construction with or "
         "without initial sub-objects; oracle = vector model (exactly once / never), assignments on detached objects call nothing, "
         "and detached objects keep no watcher. Non-trivial = a sub-object is replaced and both the old and the new object are "
-        "assigned afterwards, or a method has >=2 dependencies through the same sub-object; distinct = case hash.")
+        "assigned afterwards, or a method has >=2 dependencies through the same sub-object; distinct = case hash. Dependencies also include the root parameters themselves (a, c) and the sub-object parameter a.b; the sub-objects may be attached by an on_init method of the parent (declared before or after the dependent methods); a dependent method may raise at its k-th call, after which every method is judged on when the method that raised depends on something through the replaced object (then all were re-bound before it was called), else only that method.")
 ASSUMPTIONS = [
     "the call count is not claimed for an operation in which some component flips between resolved and unresolved",
     "read-only inspection of the watcher tables of pool objects (the harness installs no watcher on them)",
